@@ -326,14 +326,16 @@ func (d *driver) selftest() int {
 			seeds = append(seeds, s)
 		}
 		sort.Slice(seeds, func(i, j int) bool { return seeds[i] < seeds[j] })
+		pbad := 0
 		for _, s := range seeds {
 			total++
 			if len(hashes[s]) != 1 {
 				bad++
+				pbad++
 				fmt.Printf("NONDETERMINISTIC %s seed=%d: %v\n", prop, s, hashes[s])
 			}
 		}
-		fmt.Printf("selftest %s: %d seeds x %d repetitions, %d divergent\n", prop, len(seeds), reps, bad)
+		fmt.Printf("selftest %s: %d seeds x %d repetitions, %d divergent\n", prop, len(seeds), reps, pbad)
 	}
 	if bad > 0 {
 		return 2
